@@ -170,12 +170,21 @@ var sanitize = regexp.MustCompile(`[^A-Za-z0-9_.-]+`)
 
 // RunProperty evaluates one property and returns the process exit code.
 func RunProperty(def PropertyDef, repo, root, tier string, seed int) int {
+	return RunPropertyWith(nil, nil, def, repo, root, tier, seed)
+}
+
+// RunPropertyWith is RunProperty with an already loaded program (nil: load it) - used by `verifsa multi`, which evaluates
+// several rule sets over one load of the repository.
+func RunPropertyWith(pre *load.Program, preErr error, def PropertyDef, repo, root, tier string, seed int) int {
 	start := time.Now()
 	c := &Ctx{Property: def.ID, Tier: tier, Root: root,
 		instances: map[string]int{}, minInst: map[string]int{}, counters: map[string]int{}}
 	c.explain = def.Explanation
 
-	prog, err := load.Load(repo, "")
+	prog, err := pre, preErr
+	if pre == nil && preErr == nil {
+		prog, err = load.Load(repo, "")
+	}
 	if err != nil {
 		c.add(Obligation{Rule: def.ID + "-LOAD", Key: "load", Verdict: Undecided, Kind: "analysis-failure", Detail: err.Error()})
 	} else {
